@@ -758,6 +758,12 @@ class BT:
                 self.refuse(f"store `->{lhs[2]} = <{vty}>`")
             out.append(f"{ind}let s ← {st} s {p} {v}")
             return v, vty
+        if lhs[0] == "deref":
+            p, pty = self.ev(lhs[1], env, out, ind)
+            if pty != "cptr" or vty != "nat":
+                self.refuse("this store through `*`")
+            out.append(f"{ind}let s ← storeChar s {p} 0 {v}")
+            return v, vty
         if lhs[0] == "index":
             p, pty = self.ev(lhs[1], env, out, ind)
             i, ity = self.ev(lhs[2], env, out, ind)
@@ -897,6 +903,12 @@ class BT:
                              lambda env2, ind2: self.run([s[3]] + rest, env2, ind2, objs, ret))
         if k == "return":
             e = s[1]
+            if ret in ("nat", "bool"):
+                out = []
+                t, ty = self.ev(e, env, out, ind) if e is not None else (None, None)
+                if ty != ret or objs:
+                    self.refuse("this return value")
+                return out + [f"{ind}pure {t}" if ret == "nat" else f"{ind}pure (decide {t})"]
             if ret == "int":
                 out = []
                 t, ty = self.ev(e, env, out, ind) if e is not None else (None, None)
@@ -932,6 +944,9 @@ BODY_FUNCS = [
     ("detach0", r"void\s+detach\s*\(\s*\)", [], "void", "detach()"),
     ("resize", r"void\s+resize\s*\(\s*usize\s+(\w+)\s*\)", ["nat"], "void", "resize(usize)"),
     ("reserve", r"void\s+reserve\s*\(\s*usize\s+(\w+)\s*\)", ["nat"], "void", "reserve(usize)"),
+    ("clear", r"void\s+clear\s*\(\s*\)", [], "void", "clear()"),
+    ("capacity", r"usize\s+capacity\s*\(\s*\)\s*const", [], "nat", "capacity()"),
+    ("isEmpty", r"bool\s+isEmpty\s*\(\s*\)\s*const", [], "bool", "isEmpty()"),
     ("appendS", r"String\s*&\s*append\s*\(\s*" + P_STR + r"\s*\)", ["obj"], "self", "append(const String&)"),
     ("appendP", r"String\s*&\s*append\s*\(\s*const\s+char\s*\*\s*(\w+)\s*,\s*usize\s+(\w+)\s*\)", ["cptr", "nat"], "self", "append(const char*, usize)"),
     ("appendC", r"String\s*&\s*append\s*\(\s*(?:const\s+)?char\s+(\w+)\s*\)", ["nat"], "self", "append(char)"),
@@ -963,7 +978,7 @@ def generate_body(repo):
         lines = tr.run(stmts, dict(params), "  ", [], ret)
         sig = "(s : St) (this : Nat)" + "".join((" (out : List Nat)" if ty == "fmt" else f" (p_{n} : {LEAN_TY[ty]})") for n, ty in zip(names, ptys))
         sig += "".join(f" (tmp{i + 1} : Nat)" for i in range(tr.tmps))
-        rty = "Option (St × Int)" if ret == "int" else "Option St"
+        rty = {"int": "Option (St × Int)", "nat": "Option Nat", "bool": "Option Bool"}.get(ret, "Option St")
         parts += [f"/-- `{cname}` -/", f"def {lean} {sig} : {rty} := do"] + lines + [""]
         known.append(lean)
         summary.append(f"{lean}:{len(stmts)}")
